@@ -40,6 +40,9 @@ def plan(tier, seed):
             k = 1
         for i in range(k):
             specs.append({'kind': 'exhaustive', 'dlm': dlm, 'k': k, 'i': i})
+    for dlm, extra in ((',', '\t'), (';', '\t'), (',', '\xa0'), ('|', '\t\x0b')):
+        for i in range(2):
+            specs.append({'kind': 'exhaustive', 'dlm': dlm, 'k': 2, 'i': i, 'extra': extra})
     for i in range(4):
         specs.append({'kind': 'random', 'i': i, 'n': RANDOM_LINES[tier] // 4})
     specs.append({'kind': 'js', 'maxlen': 6 if tier == 'quick' else 7})
@@ -143,7 +146,7 @@ def run_shard(spec, res):
     rng = random.Random(1000 * spec['seed'] + spec['shard'])
     if spec['kind'] == 'exhaustive':
         dlm = spec['dlm']
-        syms = alphabet_for(dlm)
+        syms = alphabet_for(dlm) + list(spec.get('extra', ''))      # extra: other white space (tab, NBSP) that is NOT padding - only U+0020 is
         maxlen = MAXLEN_MULTI[tier] if len(syms) > 4 else MAXLEN[tier]
         if len(syms) == 3:
             maxlen += 2
@@ -197,8 +200,8 @@ def run_js_leg(spec, res):
         return
     try:
         batch = []
-        for dlm in [',', ' ', '\t', '::', ', ', ' | ']:
-            syms = alphabet_for(dlm)
+        for dlm, extra in [(',', ''), (' ', ''), ('\t', ''), ('::', ''), (', ', ''), (' | ', ''), (',', '\t'), (';', '\xa0')]:
+            syms = alphabet_for(dlm) + list(extra)
             maxlen = spec['maxlen'] - (1 if len(syms) > 4 else 0)
             for tup in enum.words(syms, maxlen):
                 batch.append((''.join(tup), dlm))
@@ -222,7 +225,7 @@ def run_js_leg(spec, res):
 
 def summarize(tier, seed, m):
     return {
-        'rule': 'exhaustive lines over the class alphabet {quote, delimiter, space, other (+ first char of a multi-character delimiter)} up to %d symbols (%d for 5-symbol alphabets) per delimiter in %r, each through csv_utils.smart_split (both preserve modes, 5 policies) and through CSVRecordIterator on a one-line stream; random relabelling of "other" by Unicode; %d random long lines; JS smart_split on the same lines. distinct_nontrivial = distinct (line, delimiter) pairs containing at least one double quote (the fast path handles the others).' % (MAXLEN[tier], MAXLEN_MULTI[tier], DELIMS, RANDOM_LINES[tier]),
+        'rule': 'exhaustive lines over the class alphabet {quote, delimiter, space, other (+ first char of a multi-character delimiter)} up to %d symbols (%d for 5-symbol alphabets) per delimiter in %r, each through csv_utils.smart_split (both preserve modes, 5 policies) and through CSVRecordIterator on a one-line stream; random relabelling of "other" by Unicode; %d random long lines; JS smart_split on the same lines. the same exhaustive enumeration with other white space added to the alphabet (tab, vertical tab, NBSP: only U+0020 is padding around a quoted field) for , ; and | (py) and , ; (js); distinct_nontrivial = distinct (line, delimiter) pairs containing at least one double quote (the fast path handles the others).' % (MAXLEN[tier], MAXLEN_MULTI[tier], DELIMS, RANDOM_LINES[tier]),
         'exhaustive': True,
         'required': ['reader_runs', 'exhaustive_lines'],
         'assumptions': ['rv.model.refcsv.split_quoted is the documented dialect', 'characters outside {quote, delimiter chars, space} are interchangeable for the splitter (sampled by the relabelling leg)'],
